@@ -24,6 +24,7 @@ CONSTANTS SSizes        \* set of <<nk, K, pools>>: key columns, keys, "few" | "
 SS_quick    == {<<1, 2, "few">>, <<2, 2, "few">>}
 SS_thorough == {<<1, 2, "all">>, <<2, 2, "few">>, <<1, 3, "few">>, <<2, 3, "few">>}
 SS_mc       == {<<1, 2, "few">>}
+SS_mc_thorough == {<<1, 2, "few">>, <<2, 2, "few">>, <<1, 3, "few">>, <<2, 3, "few">>}
 
 VARIABLES sz, pool0, pool, last, hist, mem
 vars == <<sz, pool0, pool, last, hist, mem>>
